@@ -1,0 +1,18 @@
+//go:build verif
+
+package client
+
+import "github.com/simpleiot/simpleiot/data"
+
+// Lemma functions for the govc verifier (build tag verif only; never called).
+
+// verifSerialRoundTrip: a packet built by SerialEncode, decoded by SerialDecode.
+// Returns the packet as well so that the contract can relate the payload to it.
+func verifSerialRoundTrip(seq byte, subject string, points data.Points) ([]byte, byte, string, []byte, error) {
+	d, err := SerialEncode(seq, subject, points)
+	if err != nil {
+		return nil, 0, "", nil, err
+	}
+	s, sub, payload, err := SerialDecode(d)
+	return d, s, sub, payload, err
+}
